@@ -18,6 +18,26 @@ def run(ctx):
                 p = problems.gen_problem(rng, A, alg_name=nm, with_constraints=False)
                 p["obj"] = rng.choice([0, 1, 2, 3, 4])
                 ps.append(p)
+        # budget sweep: the evaluation that exhausts maxeval is the classical place to lose a new best point, and the initial
+        # sampling phases (BOBYQA/NEWUOA 2n+1 points, CRS / ISRES / ESCH populations) are only cut short by small budgets
+        for nm in names:
+            for rep in range(4 if ctx.thorough else (6 if nm in ("NLOPT_LN_BOBYQA", "NLOPT_LN_NEWUOA", "NLOPT_LN_NEWUOA_BOUND", "NLOPT_LN_COBYLA") else 1)):
+                base = problems.gen_problem(rng, A, alg_name=nm, with_constraints=False, box="finite", allow_max=(rep == 2))
+                for k in ("stopval", "ftol_rel", "xtol_rel", "xtol_abs", "maxtime", "clockq", "clock0"):
+                    base.pop(k, None)
+                base["obj"] = rng.choice([0, 1, 3])
+                if rep >= 1 and rep % 2 == 1:
+                    # start in the middle of the box, optimum on a chosen side of every coordinate (both probe directions of the
+                    # initial interpolation set are then ranked in every order over the repetitions)
+                    base["x0"] = [(a + b) / 2 for a, b in zip(base["lb"], base["ub"])]
+                    base["oc"] = [x + rng.choice([-1, -1, 1]) * rng.uniform(0.2, 0.45) * (b - a) for x, a, b in zip(base["x0"], base["lb"], base["ub"])]
+                    base["obj"] = 0
+                    base.pop("dx", None)
+                top = 400 if ctx.thorough else (160 if nm in ("NLOPT_GN_CRS2_LM", "NLOPT_GN_ISRES", "NLOPT_GN_ESCH") else 60)
+                for N in range(1, top + 1):
+                    q = dict(base)
+                    q["maxeval"] = N
+                    ps.append(q)
         batch = runcheck.run_batch(ctx, bdir, A, ps, [monitors.mon_best], "incumbent-keeping algorithms")
         ctx.sample({"spec": batch[0][1].spec})
         ctx.cov["unproved"] = ["incumbent bookkeeping inside BOBYQA/NEWUOA (kopt), DIRECT, CRS, ISRES, ESCH, StoGO, NM/Sbplx, PRAXIS: monitor only"]
